@@ -42,7 +42,7 @@ package dockerlog
 //@   ensures[message-is-the-rest]  ret0 == nil ==> r.Body == cut_r1
 //@   ensures[timestamp-is-the-prefix] cut_r2 ==> tp_called && tp_a0 == time.RFC3339Nano && tp_a1 == cut_r0
 //@   ensures[bad-timestamp-is-an-error] cut_r2 && tp_r1 != nil ==> ret0 != nil
-//@   ensures[nanosecond-exact] ret0 == nil ==> r.Timestamp == otelstorage.NewTimestampFromTime(tp_r0) && r.ObservedTimestamp == r.Timestamp
+//@   ensures[nanosecond-exact] ret0 == nil ==> r.Timestamp == pcommon.NewTimestampFromTime(tp_r0) && r.ObservedTimestamp == r.Timestamp
 
 //@ func (*streamIter).parseNext
 //@   capture pl = call(parseDockerLine, 0)
@@ -55,11 +55,15 @@ package dockerlog
 //@   ensures[consumes-exactly-one-frame] pl_called ==> readerPos(i.rd) == old(readerPos(i.rd)) + 8 + be32(readerData(i.rd), old(readerPos(i.rd))+4)
 //@   ensures[record-iff-line-parsed] ret0 == (pl_called && pl_r0 == nil) && (ret0 ==> ret1 == nil) && (pl_called && pl_r0 != nil ==> ret1 != nil)
 //@   ensures[source-kept] same(i.rd, old(i.rd))
+//@   ensures[origin-labels-untouched] same(r.ResourceAttrs, old(r.ResourceAttrs)) && same(i.resource, old(i.resource))
 
+// Every record carries the labels of the container whose stream it was read from, whatever the
+// record held before the call.
 //@ func (*streamIter).Next
 //@   capture pn = call(i.parseNext, 0)
 //@   modifies *, readerPos(i.rd)
 //@   ensures[result-and-error-from-parse] pn_called && pn_a0 == r && ok == pn_r0 && i.err == pn_r1
+//@   ensures[record-carries-its-stream-labels] same(r.ResourceAttrs, old(i.resource)) && before(pn_called, same(r.ResourceAttrs, i.resource))
 
 //@ func (*streamIter).Err
 //@   modifies nothing
